@@ -20,5 +20,5 @@ package traverse
 //@ o-ensures: [all-succeed] (forall j int :: 0 <= j && j < len(list) ==> result(1, f, list[j]) == nil) ==> rerr == nil && len(r) == len(list) && forall j int :: 0 <= j && j < len(list) ==> r[j] == result(0, f, list[j])
 //@ o-ensures: [first-failure] rerr != nil ==> r == nil && traceLen() >= 1 && rerr == result(1, f, list[traceLen() - 1]) && forall j int :: 0 <= j && j < traceLen() - 1 ==> result(1, f, list[j]) == nil
 //@ o-ensures: [in-order-no-call-after-failure] traceLen() <= len(list) && (forall j int :: 0 <= j && j < traceLen() ==> called(j, f, list[j])) && (rerr == nil ==> traceLen() == len(list))
-//@ o-loop: 1: invariant len(out) == len(list) && traceLen() == $i && out != nil
-//@ o-loop: 1: invariant forall j int :: 0 <= j && j < $i ==> result(1, f, list[j]) == nil && out[j] == result(0, f, list[j]) && called(j, f, list[j])
+//@ o-loop: 1: invariant len($out0) == len(list) && traceLen() == $i && $out0 != nil
+//@ o-loop: 1: invariant forall j int :: 0 <= j && j < $i ==> result(1, f, list[j]) == nil && $out0[j] == result(0, f, list[j]) && called(j, f, list[j])
